@@ -56,7 +56,7 @@ man = {
    "guard": "cargo feature `verif` of elvis-core (cfg(feature = \"verif\"))",
    "enable": "the harness crate /verif/harness depends on elvis-core with features=[\"verif\"] (path dependency on /repo/sim/elvis-core)",
    "baseline_off_cmd": "cd /repo/sim && (cargo nextest run --workspace --no-fail-fast --tool-config-file pb:/w/lib/nextest.toml --profile pb --test-threads 8 --offline || cargo test --workspace --no-fail-fast --offline)",
-   "source_commits": ["0e8e1bda", "34169798", "e68557a9", "6149c986", "e61653a0"],
+   "source_commits": ["0e8e1bda", "34169798", "e68557a9", "6149c986", "e61653a0", "82d1c349"],
    "add_only": True},
  "engines": [{"name": "rocq-model-proof+lockstep", "path": "/verif/check", "serves_properties": sorted(CLAIMS),
               "kind_free_text": "hand-written Gallina models + Coq 8.16.1 theorems; models extracted to OCaml (ExtrOcamlBasic only) and run in lock-step against the real Rust code through the harness crate /verif/harness"}],
